@@ -27,6 +27,10 @@ pub enum Kind {
     SpeedLimit { timed: bool, break_at: Option<usize> },
     /// E-SEQ: actions on a LocomotiveSimulation (false) / ConsistSimulation (true)
     Seq { consist: bool, actions: Vec<u8> },
+    /// E-SEQ on a nested tree with one unit reconfigured on its own: subject 0 ConsistSimulation, 1 SetSpeedTrainSim;
+    /// actions 0 step, 1 failing step, 2..5 top-level set_save_interval(None|1|2|3), 6 set ONE nested locomotive's interval
+    /// to 5 behind the top level's back
+    SeqNested { subject: u8, actions: Vec<u8> },
 }
 
 #[derive(Debug, Clone, Serialize, Deserialize, PartialEq)]
@@ -367,6 +371,93 @@ pub fn run_case(c: &Case) -> Outcome {
             kinds.dedup();
             o.sig = format!("seq:{}:{:?}", consist, kinds);
         }
+        Kind::SeqNested { subject, actions } => {
+            let ivs = [None, Some(1usize), Some(2), Some(3)];
+            let len = actions.len() + 2;
+            let mut interval = c.interval;
+            let mut exp_i: Vec<u64> = vec![];
+            let mut n = 0usize;
+            // `uniform`: no nested unit has been reconfigured since the last top-level set; `aligned`: no step was saved while
+            // the tree was non-uniform (afterwards only the propagation clause can be judged, lengths legitimately differ)
+            let mut uniform = true;
+            let mut aligned = true;
+            macro_rules! drive_nested {
+                ($sim:ident, $kind:expr, $idx:expr, $prep:expr) => {{
+                    for a in actions.iter() {
+                        match a {
+                            0 | 1 => {
+                                let idx = $idx(&$sim);
+                                $prep(&mut $sim, idx, *a == 0);
+                                match guarded(|| $sim.step()) {
+                                    Err(p) => {
+                                        o.fails.push((format!("panic@step:{}", $kind), p));
+                                        break;
+                                    }
+                                    Ok(Ok(())) => {
+                                        n += 1;
+                                        if !uniform {
+                                            aligned = false;
+                                        }
+                                        if let Some(x) = interval {
+                                            if n % x == 0 {
+                                                exp_i.push(n as u64);
+                                            }
+                                        }
+                                    }
+                                    Ok(Err(_)) => {}
+                                }
+                            }
+                            6 => {
+                                $sim.loco_con.loco_vec[0].set_save_interval(Some(5));
+                                uniform = false;
+                            }
+                            x => {
+                                interval = ivs[(*x as usize - 2) % 4];
+                                $sim.set_save_interval(interval);
+                                uniform = true;
+                            }
+                        }
+                        if !uniform {
+                            continue; // nothing is promised while one unit is on its own interval
+                        }
+                        let t = tree_of(&$sim);
+                        let mut fl = check_tree(&t, &exp_i, n as u64 + 1, interval, $kind, &mut o.checks);
+                        if !aligned {
+                            fl.retain(|x| x.0.starts_with("save-interval-not-propagated"));
+                        }
+                        if !fl.is_empty() {
+                            o.fails.extend(fl);
+                            break;
+                        }
+                    }
+                }};
+            }
+            if *subject == 0 {
+                let con = Consist::new(vec![loco_of(0), loco_of(1), loco_of(0)], c.interval, pdct(false));
+                let mut sim = ConsistSimulation::new(con, power_trace(len, None), c.interval);
+                drive_nested!(sim, "seq-nested-consist", |s: &ConsistSimulation| s.i, |s: &mut ConsistSimulation, idx: usize, ok: bool| {
+                    s.power_trace.pwr[idx] = if ok { 3.0e5 * uc::W } else { 1.0e12 * uc::W };
+                });
+            } else {
+                let net = build_topology(&line_topology(&[1200.0, 900.0], 15.0), true, SetStyle::Map);
+                let spec = TrainSpec { n_loaded: 2, n_empty: 1, davis: false, mass_override: None, length_override: None, consist: 2, cd_vec: false };
+                let b = builder(&spec, None, Some(InitTrainState::new(Some(0.0 * uc::S), None, Some(3.0 * uc::MPS))), c.interval);
+                let time: Vec<f64> = (0..=len).map(|x| x as f64).collect();
+                let speed: Vec<f64> = (0..=len).map(|i| 3.0 + 0.1 * i as f64).collect();
+                match b.make_set_speed_train_sim(&net, &[lidx(1), lidx(2)], SpeedTrace::new(time, speed, None), c.interval) {
+                    Ok(mut sim) => {
+                        drive_nested!(sim, "seq-nested-set-speed", |s: &altrios_core::train::SetSpeedTrainSim| s.state.i, |s: &mut altrios_core::train::SetSpeedTrainSim, idx: usize, ok: bool| {
+                            s.speed_trace.speed[idx] = if ok { (3.0 + 0.1 * idx as f64) * uc::MPS } else { -1.0 * uc::MPS };
+                        });
+                    }
+                    Err(e) => o.fails.push(("valid-train-rejected@harness".into(), format!("{e:#}"))),
+                }
+            }
+            o.steps = n as u64;
+            let mut kinds: Vec<u8> = actions.iter().map(|a| if *a >= 6 { 3 } else { (*a).min(2) }).collect();
+            kinds.dedup();
+            o.sig = format!("seq-nested:{}:{:?}", subject, kinds);
+        }
     }
     o.fails.sort_by(|a, b| a.0.cmp(&b.0));
     o.fails.dedup_by(|a, b| a.0 == b.0);
@@ -431,6 +522,31 @@ pub fn cases(tier: Tier) -> Vec<Case> {
         all.extend(next.iter().cloned());
         seqs = next;
     }
+    // nested E-SEQ: every sequence of the same depth over 7 actions that contains the nested reconfiguration (6) at least once
+    {
+        let mut seqs: Vec<Vec<u8>> = vec![vec![]];
+        for _ in 0..depth {
+            let mut next = vec![];
+            for s in &seqs {
+                for a in 0..7u8 {
+                    let mut x = s.clone();
+                    x.push(a);
+                    next.push(x);
+                }
+            }
+            seqs = next;
+        }
+        for s in seqs {
+            if !s.contains(&6) {
+                continue;
+            }
+            for subject in [0u8, 1] {
+                for iv in [Some(1usize), Some(5)] {
+                    v.push(Case { kind: Kind::SeqNested { subject, actions: s.clone() }, interval: iv, len: s.len(), fail_at: None });
+                }
+            }
+        }
+    }
     for s in all {
         if s.len() < depth {
             continue; // prefixes are checked after every action of the longer sequences
@@ -450,7 +566,7 @@ impl Prop for C19 {
         "C19"
     }
     fn rule(&self, tier: Tier) -> String {
-        format!("E-SHAPE on the real walk(): simulation kinds {{LocomotiveSimulation conv/BEL/hybrid/hybrid with a flat battery, ConsistSimulation over all {{conv,BEL}}^n n<=3 (+ conv+hybrid, conv+flat hybrid, flat hybrid+BEL+hybrid), SetSpeedTrainSim with 3 consists, SpeedLimitTrainSim walk and walk_timed_path (also broken at entry 1 / 2 by a non-contiguous link)}} x save interval in {{None,1,2,3,7}} x every run length 0..{} (+ long runs) x every position of a failing step (demand no unit can meet / negative trace speed); E-SEQ: every sequence of {} actions from {{step ok, step failing, set_save_interval(None|1|2|3)}} on a LocomotiveSimulation and a ConsistSimulation, oracle after every action. The object tree is inspected generically through its serialized form (every nested history, state.i and save_interval). distinct_nontrivial = distinct (kind, interval, ok/fail, action-shape) signatures.", if tier.is_thorough() { 16 } else { 12 }, if tier.is_thorough() { 6 } else { 5 })
+        format!("E-SHAPE on the real walk(): simulation kinds {{LocomotiveSimulation conv/BEL/hybrid/hybrid with a flat battery, ConsistSimulation over all {{conv,BEL}}^n n<=3 (+ conv+hybrid, conv+flat hybrid, flat hybrid+BEL+hybrid), SetSpeedTrainSim with 3 consists, SpeedLimitTrainSim walk and walk_timed_path (also broken at entry 1 / 2 by a non-contiguous link)}} x save interval in {{None,1,2,3,7}} x every run length 0..{} (+ long runs) x every position of a failing step (demand no unit can meet / negative trace speed); E-SEQ: every sequence of {} actions from {{step ok, step failing, set_save_interval(None|1|2|3)}} on a LocomotiveSimulation and a ConsistSimulation, oracle after every action; nested E-SEQ: every sequence of the same length over those actions plus 'set ONE nested locomotive's interval behind the top level's back' (at least once) on a three-unit ConsistSimulation and on a SetSpeedTrainSim, starting from intervals 1 and 5 (5 = the value the nested unit is set to): after every top-level set the interval must have reached every nested object again. The object tree is inspected generically through its serialized form (every nested history, state.i and save_interval). distinct_nontrivial = distinct (kind, interval, ok/fail, action-shape) signatures.", if tier.is_thorough() { 16 } else { 12 }, if tier.is_thorough() { 6 } else { 5 })
     }
     fn assumptions(&self) -> Vec<String> {
         vec![
